@@ -943,6 +943,8 @@ func mentionsFieldDeep(v ssa.Value, pkg, typ, field string, depth int) bool {
 		}
 	case *ssa.MakeInterface:
 		return mentionsFieldDeep(x.X, pkg, typ, field, depth-1)
+	case *ssa.ChangeInterface:
+		return mentionsFieldDeep(x.X, pkg, typ, field, depth-1)
 	case *ssa.UnOp:
 		return mentionsFieldDeep(x.X, pkg, typ, field, depth-1)
 	case *ssa.FieldAddr:
